@@ -67,6 +67,9 @@ Spec/CoreSem.vos Spec/CoreSem.vok Spec/CoreSem.required_vos: Spec/CoreSem.v Base
 Proofs/CoreRefine.vo Proofs/CoreRefine.glob Proofs/CoreRefine.v.beautified Proofs/CoreRefine.required_vo: Proofs/CoreRefine.v Base/Base.vo Model/Reader.vo Model/Printer.vo Model/Store.vo Model/Eval.vo Proofs/ReaderTotal.vo Proofs/EvalRel.vo Proofs/Lists.vo Proofs/Calls.vo Proofs/Cont.vo Spec/CoreSem.vo
 Proofs/CoreRefine.vio: Proofs/CoreRefine.v Base/Base.vio Model/Reader.vio Model/Printer.vio Model/Store.vio Model/Eval.vio Proofs/ReaderTotal.vio Proofs/EvalRel.vio Proofs/Lists.vio Proofs/Calls.vio Proofs/Cont.vio Spec/CoreSem.vio
 Proofs/CoreRefine.vos Proofs/CoreRefine.vok Proofs/CoreRefine.required_vos: Proofs/CoreRefine.v Base/Base.vos Model/Reader.vos Model/Printer.vos Model/Store.vos Model/Eval.vos Proofs/ReaderTotal.vos Proofs/EvalRel.vos Proofs/Lists.vos Proofs/Calls.vos Proofs/Cont.vos Spec/CoreSem.vos
+Proofs/TailCalls.vo Proofs/TailCalls.glob Proofs/TailCalls.v.beautified Proofs/TailCalls.required_vo: Proofs/TailCalls.v Base/Base.vo Model/Reader.vo Model/Printer.vo Model/Store.vo Model/Eval.vo Proofs/EvalRel.vo
+Proofs/TailCalls.vio: Proofs/TailCalls.v Base/Base.vio Model/Reader.vio Model/Printer.vio Model/Store.vio Model/Eval.vio Proofs/EvalRel.vio
+Proofs/TailCalls.vos Proofs/TailCalls.vok Proofs/TailCalls.required_vos: Proofs/TailCalls.v Base/Base.vos Model/Reader.vos Model/Printer.vos Model/Store.vos Model/Eval.vos Proofs/EvalRel.vos
 Props/C01.vo Props/C01.glob Props/C01.v.beautified Props/C01.required_vo: Props/C01.v Base/Base.vo Model/Reader.vo Model/Printer.vo Model/Store.vo Model/Eval.vo Model/Init.vo Proofs/EvalRel.vo Proofs/Cont.vo Proofs/CoreRefine.vo Spec/CoreSem.vo
 Props/C01.vio: Props/C01.v Base/Base.vio Model/Reader.vio Model/Printer.vio Model/Store.vio Model/Eval.vio Model/Init.vio Proofs/EvalRel.vio Proofs/Cont.vio Proofs/CoreRefine.vio Spec/CoreSem.vio
 Props/C01.vos Props/C01.vok Props/C01.required_vos: Props/C01.v Base/Base.vos Model/Reader.vos Model/Printer.vos Model/Store.vos Model/Eval.vos Model/Init.vos Proofs/EvalRel.vos Proofs/Cont.vos Proofs/CoreRefine.vos Spec/CoreSem.vos
@@ -76,6 +79,9 @@ Props/C02.vos Props/C02.vok Props/C02.required_vos: Props/C02.v Base/Base.vos Mo
 Props/C03.vo Props/C03.glob Props/C03.v.beautified Props/C03.required_vo: Props/C03.v Base/Base.vo Model/Reader.vo Model/Printer.vo Model/Store.vo Model/Eval.vo Model/Init.vo Proofs/EvalRel.vo
 Props/C03.vio: Props/C03.v Base/Base.vio Model/Reader.vio Model/Printer.vio Model/Store.vio Model/Eval.vio Model/Init.vio Proofs/EvalRel.vio
 Props/C03.vos Props/C03.vok Props/C03.required_vos: Props/C03.v Base/Base.vos Model/Reader.vos Model/Printer.vos Model/Store.vos Model/Eval.vos Model/Init.vos Proofs/EvalRel.vos
+Props/C04.vo Props/C04.glob Props/C04.v.beautified Props/C04.required_vo: Props/C04.v Base/Base.vo Model/Reader.vo Model/Printer.vo Model/Store.vo Model/Eval.vo Model/Init.vo Proofs/EvalRel.vo Proofs/TailCalls.vo Proofs/Calls.vo
+Props/C04.vio: Props/C04.v Base/Base.vio Model/Reader.vio Model/Printer.vio Model/Store.vio Model/Eval.vio Model/Init.vio Proofs/EvalRel.vio Proofs/TailCalls.vio Proofs/Calls.vio
+Props/C04.vos Props/C04.vok Props/C04.required_vos: Props/C04.v Base/Base.vos Model/Reader.vos Model/Printer.vos Model/Store.vos Model/Eval.vos Model/Init.vos Proofs/EvalRel.vos Proofs/TailCalls.vos Proofs/Calls.vos
 Props/C05.vo Props/C05.glob Props/C05.v.beautified Props/C05.required_vo: Props/C05.v Base/Base.vo Model/Reader.vo Model/Printer.vo Model/Store.vo Model/Eval.vo Model/Init.vo Proofs/Closures.vo Proofs/EvalRel.vo
 Props/C05.vio: Props/C05.v Base/Base.vio Model/Reader.vio Model/Printer.vio Model/Store.vio Model/Eval.vio Model/Init.vio Proofs/Closures.vio Proofs/EvalRel.vio
 Props/C05.vos Props/C05.vok Props/C05.required_vos: Props/C05.v Base/Base.vos Model/Reader.vos Model/Printer.vos Model/Store.vos Model/Eval.vos Model/Init.vos Proofs/Closures.vos Proofs/EvalRel.vos
